@@ -203,6 +203,18 @@ func genGuards() {
 			Map:    map[string]string{"len(data)": "dlen"}},
 		unp("default", "defaultUnpacker"),
 		unp("track2", "Track2Unpacker"),
+		// the running offsets of the element loops: every assignment, and every place the input is cut
+		guardSite{Name: "message_unpack", OnlyRets: true, Slices: true, Updates: []string{"off"}, Sig: []string{"m", "src"}, File: "message.go", Recv: "Message", Func: "unpack",
+			Params: []string{"off", "read"}, Map: ids(nil, "off", "read")},
+		guardSite{Name: "tlv_unpackSubfieldsByTag", OnlyRets: true, Slices: true, Updates: []string{"offset"}, Rets: []int{0}, Sig: []string{"f", "data"}, File: "field/composite.go", Recv: "Composite", Func: "unpackSubfieldsByTag",
+			Params: []string{"offset", "dlen", "fieldLength", "read", "readFieldLength", "start"},
+			Map:    ids(map[string]string{"len(data)": "dlen"}, "offset", "fieldLength", "read", "readFieldLength", "start")},
+		guardSite{Name: "bitmapped_unpackSubfieldsByBitmap", OnlyRets: true, Slices: true, Updates: []string{"off"}, Rets: []int{0}, Sig: []string{"f", "data"}, File: "field/composite.go", Recv: "Composite", Func: "unpackSubfieldsByBitmap",
+			Params: []string{"off", "read"}, Map: ids(nil, "off", "read")},
+		guardSite{Name: "positional_unpackSubfields", Slices: true, Updates: []string{"offset"}, Rets: []int{0}, Sig: []string{"f", "data", "isVariableLength"}, File: "field/composite.go", Recv: "Composite", Func: "unpackSubfields",
+			Params: []string{"offset", "read", "dlen", "isVar:Bool", "found:Bool"}, Map: ids(map[string]string{"len(data)": "dlen", "isVariableLength": "isVar", "ok": "found"}, "offset", "read")},
+		guardSite{Name: "bitmap_Unpack", OnlyRets: true, Slices: true, Updates: []string{"read"}, Rets: []int{0}, Sig: []string{"f", "data"}, File: "field/bitmap.go", Recv: "Bitmap", Func: "Unpack",
+			Params: []string{"read", "readDecoded", "minLen"}, Map: ids(map[string]string{"f.bitmapLength": "minLen"}, "read", "readDecoded")},
 	)
 	genGuardFile("GuardsReturns.lean", rets)
 }
